@@ -325,6 +325,9 @@ class Blob(Column):
     db_type = 'blob'
 
     def to_database(self, value):
+        if value is None:
+            # a null blob, e.g. an unset field of a Tuple value (every other column passes None through)
+            return None
 
         if not isinstance(value, (bytes, bytearray)):
             raise Exception("expecting a binary, got a %s" % type(value))
